@@ -13,7 +13,8 @@ PROPS = {
         "nontrivial": _ok_obs,
         "rule": "cases = corpus + every label vector in {N,W,U}^(n-1) for n<=8 (quick) / n<=11 (thorough) on a multi-byte text "
                 "+ random texts (<=40 chars, escape-worthy and 1-4-byte characters) with random labels and tags; "
-                "non-trivial = distinct case line whose history has a successful op and an observation",
+                "PLUS scale cases at sizes around the powers of two (15..300 characters, 255/256/257/300 tags or candidates, 4 KiB strings, 2^16 counts; cases too large for the Lean model run as oracle-only BIG cases) and special scalar values (BOM, joiners, controls, plane edges): see DESIGN.md section 11; "
+            "non-trivial = distinct case line whose history has a successful op and an observation",
         "scopes": {"quick": "all label vectors for n<=8", "thorough": "all label vectors for n<=11"},
         "assumptions": ["token surfaces are compared as character slices (char_to_str_pos is a function of the text)"],
     },
@@ -44,7 +45,8 @@ PROPS = {
         "nontrivial": _ok_obs,
         "rule": "every string len<=4 (quick) / <=5 (thorough) over {a,あ,space,/,\\,NUL,|} through the 3 constructors and the 3 updates "
                 "of a used sentence; every op sequence len<=3 (quick) / <=4 over a 9-op alphabet; random histories len<=6 mixing "
-                "malformed and well-formed inputs; non-trivial = distinct history with a successful op",
+                "malformed and well-formed inputs; PLUS scale cases at sizes around the powers of two (15..300 characters, 255/256/257/300 tags or candidates, 4 KiB strings, 2^16 counts; cases too large for the Lean model run as oracle-only BIG cases) and special scalar values (BOM, joiners, controls, plane edges): see DESIGN.md section 11; "
+            "non-trivial = distinct history with a successful op",
         "scopes": {"quick": "strings len<=4 x 6 entry points; op sequences len<=3", "thorough": "strings len<=5; op sequences len<=4"},
         "assumptions": [],
     },
@@ -61,6 +63,7 @@ PROPS["C01"] = {
             "word; weights cycling through {-1,0,2}; all texts len<=4 (quick) / <=5 over {a,1}) + random well-formed models "
             "(windows {1,2,3,4,5,8,9,40}: cache/plain, fixed/variable layouts; suffix-related n-grams; words equal to n-grams; "
             "words <=12 chars; i16-extreme weights) x texts <=30 chars built from pattern occurrences, some with earlier labels; "
+            "PLUS scale cases at sizes around the powers of two (15..300 characters, 255/256/257/300 tags or candidates, 4 KiB strings, 2^16 counts; cases too large for the Lean model run as oracle-only BIG cases) and special scalar values (BOM, joiners, controls, plane edges): see DESIGN.md section 11; "
             "non-trivial = distinct case whose predictor was built and prediction returned",
     "scopes": {"quick": "176 small models x 30 texts", "thorough": "176 small models x 62 texts"},
     "assumptions": ["no i32 overflow in score accumulation (weights are in the i16 range; sums stay far below 2^31 on the generated sizes)",
@@ -72,7 +75,8 @@ PROPS["C06"] = {
     "rule": "random well-formed models with 0-4 tag models (0-3 categories of 0/1/2/3/9 candidates, char and type tag n-grams at "
             "rel 0..min(W,3), small weights so ties occur, 10% with empty boundary char or type model) x texts <=14 chars biased "
             "to contain the tokens, boundaries from prediction or edited afterwards (incl. unknown), with and without score "
-            "storing; non-trivial = distinct case whose prediction and fill_tags returned",
+            "storing; PLUS scale cases at sizes around the powers of two (15..300 characters, 255/256/257/300 tags or candidates, 4 KiB strings, 2^16 counts; cases too large for the Lean model run as oracle-only BIG cases) and special scalar values (BOM, joiners, controls, plane edges): see DESIGN.md section 11; "
+            "non-trivial = distinct case whose prediction and fill_tags returned",
     "scopes": {},
     "assumptions": ["daachorse automata behave as their documented contract"],
 }
@@ -84,6 +88,7 @@ PROPS["C08"] = {
             "predictors (tags+scores, other model without tags, tags without scores, tag prediction on a tagless model), "
             "fill_tags where documented, reset_tags, boundary/tag writes, observations) simulated on the real code while "
             "generating, each followed by update_raw(x); predict; [fill_tags]; observe and compared with a fresh sentence; "
+            "PLUS scale cases at sizes around the powers of two (15..300 characters, 255/256/257/300 tags or candidates, 4 KiB strings, 2^16 counts; cases too large for the Lean model run as oracle-only BIG cases) and special scalar values (BOM, joiners, controls, plane edges): see DESIGN.md section 11; "
             "non-trivial = distinct history whose probe returned",
     "scopes": {},
     "extras": [extras.threads_extra, extras.send_sync_scan],
@@ -98,7 +103,8 @@ PROPS["C07"] = {
             "255 windows, tag models): bytes of to_vec compared byte for byte; read_slice and read on EVERY proper prefix "
             "(incl. shorter than the header), with trailing bytes, with every header byte mutated; readers and writers failing "
             "at sampled (quick) / all (thorough) byte positions; the same files are read back and re-serialised in builds of 7 (quick) / 32 (thorough) "
-            "cargo-feature subsets of vaporetto (no_std/alloc, without tag-prediction, ...) and compared with the model's bytes; non-trivial = distinct case in which some read/write succeeded or bytes were produced",
+            "cargo-feature subsets of vaporetto (no_std/alloc, without tag-prediction, ...) and compared with the model's bytes; PLUS scale cases at sizes around the powers of two (15..300 characters, 255/256/257/300 tags or candidates, 4 KiB strings, 2^16 counts; cases too large for the Lean model run as oracle-only BIG cases) and special scalar values (BOM, joiners, controls, plane edges): see DESIGN.md section 11; "
+            "non-trivial = distinct case in which some read/write succeeded or bytes were produced",
     "scopes": {"quick": "every truncation point of every generated file", "thorough": "every truncation point and every fault position"},
     "extras": [extras.feature_models],
     "assumptions": ["bincode's derive order and primitive encodings are as modelled (the model's bytes are compared with the real ones)"],
@@ -123,7 +129,8 @@ PROPS["C15"] = {
             "in {N,W,U}^(n-1), and random texts of <=8 units drawn from ZWJ sequences, flags, combining marks, Hangul jamo, CR/LF/CRLF, "
             "prepend/spacing marks and all six character types with random labels and tags; each through all six character-type "
             "filters, the line-break filter, the grapheme filter (cluster lengths supplied by the real unicode-segmentation crate) and "
-            "the pattern tagger with rules for substrings of the text (short and absent entries); non-trivial = distinct case whose filter ran",
+            "the pattern tagger with rules for substrings of the text (short and absent entries); PLUS scale cases at sizes around the powers of two (15..300 characters, 255/256/257/300 tags or candidates, 4 KiB strings, 2^16 counts; cases too large for the Lean model run as oracle-only BIG cases) and special scalar values (BOM, joiners, controls, plane edges): see DESIGN.md section 11; "
+            "non-trivial = distinct case whose filter ran",
     "scopes": {"quick": "all sentences len<=3 over 6 symbols x all label vectors x 9 filters", "thorough": "len<=4"},
     "assumptions": ["the grapheme segmentation is an input of the model (any list of cluster lengths >=1 summing to the text length); the "
                     "real crate's segmentation is supplied by the harness and checked against the crate on every case"],
@@ -135,7 +142,8 @@ PROPS["C14"] = {
     "rule": "300 (quick) / 2000 (thorough) random well-formed models (windows 1..9: cached, plain and tagged scorers; weight vectors of "
             "8 vs 9 entries with inner and trailing zeros; 0-4 tag models) as predictor pairs (original, serialize->deserialize with "
             "0-5 trailing bytes) observed on 3 texts each incl. tags and candidate scores; plus the outer record of the REAL "
-            "serialised bytes decoded and re-encoded by the Lean envelope codec; non-trivial = distinct case whose predictors were built",
+            "serialised bytes decoded and re-encoded by the Lean envelope codec; PLUS scale cases at sizes around the powers of two (15..300 characters, 255/256/257/300 tags or candidates, 4 KiB strings, 2^16 counts; cases too large for the Lean model run as oracle-only BIG cases) and special scalar values (BOM, joiners, controls, plane edges): see DESIGN.md section 11; "
+            "non-trivial = distinct case whose predictors were built",
     "scopes": {},
     "assumptions": ["daachorse serialize/deserialize_unchecked are inverse on self-produced bytes (opaque blob in the model)"],
 }
@@ -182,7 +190,8 @@ PROPS["C19"] = {
             "32-bit and negative weights and arbitrary comments; replace_dictionary with kept / edited / new / malformed records and a "
             "score-delta oracle on a text; the weights column as written by the REAL manipulate_model --dump-dict compared with the "
             "model's joinWeights and parsed back; hand-written malformed weight strings; plus the CLI dump->replace round trip on "
-            "40 (quick) / 400 (thorough) models; non-trivial = distinct case that produced a model / a parsed list",
+            "40 (quick) / 400 (thorough) models; PLUS scale cases at sizes around the powers of two (15..300 characters, 255/256/257/300 tags or candidates, 4 KiB strings, 2^16 counts; cases too large for the Lean model run as oracle-only BIG cases) and special scalar values (BOM, joiners, controls, plane edges): see DESIGN.md section 11; "
+            "non-trivial = distinct case that produced a model / a parsed list",
     "scopes": {},
     "extras": [extras.c19_cli_roundtrip],
     "assumptions": ["csv + serde round-trip three-field records unchanged (external contract, exercised end-to-end by the CLI step)",
@@ -197,7 +206,8 @@ PROPS["C20"] = {
             "spaces, slashes, backslashes, half-width and combining characters, flags, CRLF line ends, missing final newline) x ALL 16 "
             "combinations of {--no-norm, --predict-tags, --scores, --tag-scores} x wsconst sets; for evaluate: tokenized reference lines "
             "(tags, escapes, empty lines) x all 8 combinations of {--no-norm, --predict-tags, --metric word|char} x wsconst sets; the REAL "
-            "binaries built from the working tree are run as processes; non-trivial = distinct case with exit code 0 and output",
+            "binaries built from the working tree are run as processes; PLUS scale cases at sizes around the powers of two (15..300 characters, 255/256/257/300 tags or candidates, 4 KiB strings, 2^16 counts; cases too large for the Lean model run as oracle-only BIG cases) and special scalar values (BOM, joiners, controls, plane edges): see DESIGN.md section 11; "
+            "non-trivial = distinct case with exit code 0 and output",
     "scopes": {"quick": "all 16 predict flag combinations and all 8 evaluate flag combinations on every model", "thorough": "same"},
     "assumptions": ["clap's flag parsing, process exit codes and stdout buffering are not modelled", "floats of evaluate are compared as "
                     "text against the same f64 expressions evaluated by the harness; the Lean model covers the integer counts"],
